@@ -52,11 +52,12 @@ Proof.
   destruct (NetChkProofs.idx_ok NetChk.s_hevcbound_index b 2) as [b2 ->]; [lia|]. apply ok.
 Qed.
 
-Lemma rtp_boundary_ok fx kind body : fx_bound fx = true -> is_ok (rtp_boundary fx kind body).
+Lemma rtp_boundary_ok fx kind video body : fx_bound fx = true -> is_ok (rtp_boundary fx kind video body).
 Proof.
   intro F. unfold rtp_boundary. rewrite F. destruct (kind =? 1).
-  - destruct (avc_boundary_total body) as [v ->]. eexists; reflexivity.
-  - destruct (kind =? 2); [|eexists; reflexivity]. destruct (hevc_boundary_total body) as [v ->]. eexists; reflexivity.
+  - destruct (negb video); [eexists; reflexivity|]. destruct (avc_boundary_total body) as [v ->]. eexists; reflexivity.
+  - destruct (kind =? 2); [|eexists; reflexivity]. destruct (negb video); [eexists; reflexivity|].
+    destruct (hevc_boundary_total body) as [v ->]. eexists; reflexivity.
 Qed.
 
 Lemma feed_rtp_ok fx wk sdp subs body : fx_bound fx = true -> is_ok (feed_rtp fx wk sdp subs body).
@@ -64,7 +65,7 @@ Proof.
   intro F. unfold feed_rtp. destruct (negb wk); [eexists; reflexivity|].
   destruct (existsb _ subs); [|eexists; reflexivity].
   destruct sdp as [[v k]|]; [|eexists; reflexivity].
-  destruct (rtp_boundary_ok fx k body F) as [b ->]. eexists; reflexivity.
+  destruct (rtp_boundary_ok fx k (fst body) (snd body) F) as [b ->]. eexists; reflexivity.
 Qed.
 
 Lemma feed_rtp_all_ok fx wk sdp l : forall subs, fx_bound fx = true -> is_ok (feed_rtp_all fx wk sdp subs l).
